@@ -330,7 +330,7 @@ impl Prop for C19 {
         false
     }
     fn rule(&self) -> String {
-        "query family: 14 value shapes (1, -1, 0, integers, terminating and repeating fractions, 1e13, 1e-13, 15-digit decimals, a value one ulp below 1) x 9 unit shapes, negative tiny/huge values, all ordered pairs and triples of 6 result kinds in one query, (none, m, km, pluralising `decade`/`btu`, m/s, no-numerator /s, m^2, compound) in two spellings, fact phrases with a unique best match, README examples, erroring queries, multi-result queries with an error between values, degenerate input; x {default, --exact}; each run through the real `any` binary (built from /repo by the check, on-disk index in a private data directory) and compared with the text rebuilt from the library's results by the stated rule (line per Ok result; `error: <message>` diagnostic per Err result, in order). Non-trivial = the query yields at least one result; distinct = distinct (query, mode)".into()
+        "query family: 14 value shapes (1, -1, 0, integers, terminating and repeating fractions, 1e13, 1e-13, 15-digit decimals, a value one ulp below 1) x 9 unit shapes, negative tiny/huge values, all ordered pairs and triples of 6 result kinds in one query, (none, m, km, pluralising `decade`/`btu`, m/s, no-numerator /s, m^2, compound) in two spellings, fact phrases with a unique best match, README examples, erroring queries, multi-result queries with an error between values, degenerate input; x {default, --exact}; each run through the real `any` binary (built from /repo by the check, on-disk index in a private data directory) and compared with the text rebuilt from the library's results by the stated rule (line per Ok result; `error: <message>` diagnostic per Err result, in order; a diagnostic may be on stdout, in order with the value lines, or on stderr, in order among the diagnostics). Non-trivial = the query yields at least one result; distinct = distinct (query, mode)".into()
     }
     fn assumptions(&self) -> Vec<String> {
         vec![
@@ -383,6 +383,11 @@ impl Prop for C19 {
         // walk the output
         let lines: Vec<&str> = stdout.lines().collect();
         let mut pos = 0usize;
+        // the statement does not say on which stream a diagnostic appears: one that is not on
+        // stdout (in order with the value lines) is looked for on stderr (in order among themselves)
+        let stderr_clean = strip_ansi(&stderr);
+        let elines: Vec<&str> = stderr_clean.lines().collect();
+        let mut epos = 0usize;
         for (i, item) in want.iter().enumerate() {
             match item {
                 Item::Line(l) => {
@@ -450,7 +455,10 @@ impl Prop for C19 {
                     }
                     match found {
                         Some(j) => pos = j + 1,
-                        None => return fw::fail(sig("diagnostic"), format!("{}: result #{i} is the error {m:?} but no `{head}` diagnostic follows in order; stdout is {:?}", case.key, stdout)),
+                        None if elines[epos..].iter().any(|l| l.trim_end() == head) => {
+                            epos += elines[epos..].iter().position(|l| l.trim_end() == head).unwrap() + 1;
+                        }
+                        None => return fw::fail(sig("diagnostic"), format!("{}: result #{i} is the error {m:?} but no `{head}` diagnostic follows in order; stdout is {:?}, stderr is {:?}", case.key, stdout, stderr_clean)),
                     }
                 }
             }
